@@ -4,6 +4,11 @@
    transliterated from the Go code (same tests, same order), and the `representable`
    predicates the property text asks for.
 
+   State of /repo modelled: after the fix commits e80df58 (JPEG 65535 bound), 96ebe7f (JPEG-LS
+   buffer length and 65535 bound), 9b2aa4a + 60ddb6e (jpeg2000 validateParams), 47e9276 (RLE
+   geometry / segment count), 6841553 (BitsStored consistency in the .50/.51/HTJ2K codecs).
+   Still open, by decision: NEAR is only bounded by 255 (FR-3), Validate() normalises (FR-7).
+
    Go `int` is 64 bit: products are written with i64mul (= wrapS 64) so that the model has the
    Go overflow behaviour; the theorems state the range in which no overflow happens.
 
@@ -28,6 +33,7 @@ Definition bytes_per_sample (p : Z) : Z := Z.quot (p + 7) 8.
 (* ---------- jpeg/baseline.Encode(pixelData, width, height, components, quality) ---------- *)
 Definition baseline_accepts (a : eargs) : bool :=
   negb ((a_w a <=? 0) || (a_h a <=? 0))
+  && negb ((65535 <? a_w a) || (65535 <? a_h a))
   && negb (negb (a_c a =? 1) && negb (a_c a =? 3))
   && negb ((a_x a <? 1) || (100 <? a_x a))
   && negb (a_len a <? i64mul (i64mul (a_w a) (a_h a)) (a_c a)).
@@ -36,6 +42,7 @@ Definition baseline_accepts (a : eargs) : bool :=
 (* encodeSequential12(pixelData, width, height, components, quality) *)
 Definition seq12_accepts (a : eargs) : bool :=
   negb ((a_w a <=? 0) || (a_h a <=? 0))
+  && negb ((65535 <? a_w a) || (65535 <? a_h a))
   && negb (negb (a_c a =? 1))
   && negb ((a_x a <? 1) || (100 <? a_x a))
   && negb (a_len a <? i64mul (i64mul (a_w a) (a_h a)) 2).
@@ -43,6 +50,7 @@ Definition seq12_accepts (a : eargs) : bool :=
 (* EncodeSimple *)
 Definition extended_simple_accepts (a : eargs) : bool :=
   negb ((a_w a <=? 0) || (a_h a <=? 0))
+  && negb ((65535 <? a_w a) || (65535 <? a_h a))
   && negb (negb (a_c a =? 1) && negb (a_c a =? 3))
   && negb (negb (a_p a =? 8) && negb (a_p a =? 12))
   && negb ((a_x a <? 1) || (100 <? a_x a))
@@ -55,6 +63,7 @@ Definition extended_accepts (a : eargs) : bool :=
 (* ---------- jpeg/lossless.Encode(pixelData, w, h, components, bitDepth, predictor) ---------- *)
 Definition lossless_accepts (a : eargs) : bool :=
   negb ((a_w a <=? 0) || (a_h a <=? 0))
+  && negb ((65535 <? a_w a) || (65535 <? a_h a))
   && negb (negb (a_c a =? 1) && negb (a_c a =? 3))
   && negb ((a_p a <? 2) || (16 <? a_p a))
   && negb ((a_x a <? 0) || (7 <? a_x a))
@@ -63,23 +72,28 @@ Definition lossless_accepts (a : eargs) : bool :=
 (* ---------- jpeg/lossless14sv1.Encode(pixelData, w, h, components, bitDepth) ---------- *)
 Definition sv1_accepts (a : eargs) : bool :=
   negb ((a_w a <=? 0) || (a_h a <=? 0))
+  && negb ((65535 <? a_w a) || (65535 <? a_h a))
   && negb (negb (a_c a =? 1) && negb (a_c a =? 3))
   && negb ((a_p a <? 2) || (16 <? a_p a))
   && negb (a_len a <? i64mul (i64mul (i64mul (a_w a) (a_h a)) (a_c a)) (bytes_per_sample (a_p a))).
 
 (* ---------- jpegls/lossless.Encode(pixelData, w, h, components, bitDepth) ---------- *)
-(* no length test, no upper bound on the dimensions *)
+(* dimensions > 0, components, bit depth, then (since 96ebe7f) the 65535 bound and the length *)
 Definition jls_accepts (a : eargs) : bool :=
   negb ((a_w a <=? 0) || (a_h a <=? 0))
   && negb (negb (a_c a =? 1) && negb (a_c a =? 3))
-  && negb ((a_p a <? 2) || (16 <? a_p a)).
+  && negb ((a_p a <? 2) || (16 <? a_p a))
+  && negb ((65535 <? a_w a) || (65535 <? a_h a))
+  && negb (a_len a <? i64mul (i64mul (i64mul (a_w a) (a_h a)) (a_c a)) (bytes_per_sample (a_p a))).
 
 (* ---------- jpegls/nearlossless.Encode(pixelData, w, h, components, bitDepth, near) ---------- *)
 Definition jlsnear_accepts (a : eargs) : bool :=
   negb ((a_w a <=? 0) || (a_h a <=? 0))
   && negb (negb (a_c a =? 1) && negb (a_c a =? 3))
   && negb ((a_p a <? 2) || (16 <? a_p a))
-  && negb ((a_x a <? 0) || (255 <? a_x a)).
+  && negb ((a_x a <? 0) || (255 <? a_x a))
+  && negb ((65535 <? a_w a) || (65535 <? a_h a))
+  && negb (a_len a <? i64mul (i64mul (i64mul (a_w a) (a_h a)) (a_c a)) (bytes_per_sample (a_p a))).
 
 (* ---------- representable (the property text) ---------- *)
 
@@ -122,7 +136,8 @@ Record j2kargs : Type := {
   k_levels : Z; k_cbw : Z; k_cbh : Z; k_layers : Z;
   k_prog : Z;          (* uint8 *)
   k_tw : Z; k_th : Z;
-  k_quality : Z; k_lossless : bool
+  k_quality : Z; k_lossless : bool;
+  k_ncq : Z            (* len(CustomQuantSteps) *)
 }.
 
 (* isPowerOfTwo(n) = n > 0 && n&(n-1) == 0, used inside 4..1024 *)
@@ -130,7 +145,11 @@ Definition pow2_4_1024 (n : Z) : bool :=
   (n =? 4) || (n =? 8) || (n =? 16) || (n =? 32) || (n =? 64) || (n =? 128) || (n =? 256)
   || (n =? 512) || (n =? 1024).
 
-(* validateParams (ROI nil) then convertPixelData's length test *)
+(* tw == 0 -> tw = Width; (Width + tw - 1) / tw *)
+Definition go_tiles (full t : Z) : Z :=
+  let t' := if t =? 0 then full else t in Z.quot (wrapS 64 (wrapS 64 (full + t') - 1)) t'.
+
+(* validateParams (params non-nil, ROI nil) then convertPixelData's length test *)
 Definition j2k_accepts (k : j2kargs) : bool :=
   negb ((k_w k <=? 0) || (k_h k <=? 0))
   && negb ((k_c k <=? 0) || (4 <? k_c k))
@@ -138,7 +157,14 @@ Definition j2k_accepts (k : j2kargs) : bool :=
   && negb ((k_levels k <? 0) || (6 <? k_levels k))
   && negb ((k_cbw k <? 4) || (1024 <? k_cbw k) || negb (pow2_4_1024 (k_cbw k)))
   && negb ((k_cbh k <? 4) || (1024 <? k_cbh k) || negb (pow2_4_1024 (k_cbh k)))
-  && negb (k_layers k <? 1)
+  && negb (4096 <? i64mul (k_cbw k) (k_cbh k))
+  && negb ((k_layers k <? 1) || (65535 <? k_layers k))
+  && negb (4 <? k_prog k)
+  && negb ((k_tw k <? 0) || (k_th k <? 0))
+  && (if (0 <? k_tw k) || (0 <? k_th k)
+      then negb (65535 <? i64mul (go_tiles (k_w k) (k_tw k)) (go_tiles (k_h k) (k_th k)))
+      else true)
+  && negb (negb (k_lossless k) && (k_ncq k =? 0) && ((k_quality k <? 1) || (100 <? k_quality k)))
   && negb (k_len k <? i64mul (i64mul (i64mul (k_w k) (k_h k)) (k_c k)) (bytes_per_sample (k_p k))).
 
 Definition tiles_along (full t : Z) : Z := if t =? 0 then 1 else Z.quot (full + t - 1) t.
@@ -153,7 +179,7 @@ Definition j2k_representable (k : j2kargs) : bool :=
   && (0 <=? k_prog k) && (k_prog k <=? 4)
   && (0 <=? k_tw k) && (k_tw k <? 4294967296) && (0 <=? k_th k) && (k_th k <? 4294967296)
   && (tiles_along (k_w k) (k_tw k) * tiles_along (k_h k) (k_th k) <=? 65535)
-  && (k_lossless k || ((1 <=? k_quality k) && (k_quality k <=? 100)))
+  && (k_lossless k || (0 <? k_ncq k) || ((1 <=? k_quality k) && (k_quality k <=? 100)))
   && (k_w k * k_h k * k_c k * bytes_per_sample (k_p k) <=? k_len k).
 
 (* ---------- rle.Codec.encodeFrame ---------- *)
@@ -185,12 +211,19 @@ Fixpoint rle_segments (fuel : nat) (s nseg bytesalloc pc len planar : Z) : outco
       else rle_segments f (s + 1) nseg bytesalloc pc len planar
   end.
 
+(* (the later test `encoder.offsetOverflow` needs more than 4 GiB of encoded data before the
+   last segment; it is not in this model, which therefore accepts a superset of what Go
+   accepts: `accepts -> representable` about the model carries over to the code) *)
 Definition rle_outcome (r : rleargs) : outcome unit :=
   if r_len r =? 0 then Err
+  else if (r_w r =? 0) || (r_h r =? 0) then Err
+  else if r_ba r =? 0 then Err
   else
     let pc := r_w r * r_h r in
     let b := rle_bytes_allocated (r_ba r) in
-    rle_segments 17 0 (b * r_spp r) b pc (r_len r) (r_planar r).
+    let nseg := b * r_spp r in
+    if (nseg <? 1) || (15 <? nseg) then Err
+    else rle_segments 17 0 nseg b pc (r_len r) (r_planar r).
 
 Definition rle_accepts (r : rleargs) : bool :=
   match rle_outcome r with Ok _ => true | _ => false end.
@@ -235,13 +268,13 @@ Definition eargs_of (c : cargs) (p x : Z) : eargs :=
 
 (* .50 baseline: BitsStored <= 8; quality normalised to 1..100 (default 90) *)
 Definition codec_baseline_accepts (c : cargs) : bool :=
-  codec_common c && negb (8 <? c_bs c) && codec_frames c
+  codec_common c && negb (8 <? c_bs c) && negb ((c_bs c =? 0) || (c_ba c <? c_bs c)) && codec_frames c
   && baseline_accepts (eargs_of c 8 (norm_param 1 100 90 90 false c)).
 
 (* .51 extended: BitsStored <= 12; bit depth from BitsStored (1..8 -> 8, 9..12 -> 12,
    0 -> the parameter default 12) *)
 Definition codec_extended_accepts (c : cargs) : bool :=
-  codec_common c && negb (12 <? c_bs c) && codec_frames c
+  codec_common c && negb (12 <? c_bs c) && negb ((c_bs c =? 0) || (c_ba c <? c_bs c)) && codec_frames c
   && extended_accepts (eargs_of c (if (0 <? c_bs c) && (c_bs c <=? 8) then 8 else 12)
                                   (norm_param 1 100 90 90 false c)).
 
@@ -269,14 +302,14 @@ Definition codec_j2k_accepts (c : cargs) : bool :=
   codec_common c && codec_frames c
   && j2k_accepts {| k_len := c_flen c; k_w := c_w c; k_h := c_h c; k_c := c_spp c; k_p := c_bs c;
                     k_levels := 5; k_cbw := 64; k_cbh := 64; k_layers := 1; k_prog := 0;
-                    k_tw := 0; k_th := 0; k_quality := 80; k_lossless := true |}.
+                    k_tw := 0; k_th := 0; k_quality := 80; k_lossless := true; k_ncq := 0 |}.
 
 (* .201/.202/.203 HTJ2K: the bit depth handed to the encoder is BitsAllocated *)
 Definition codec_htj2k_accepts (c : cargs) : bool :=
-  codec_common c && codec_frames c
+  codec_common c && negb ((c_bs c =? 0) || (c_ba c <? c_bs c)) && codec_frames c
   && j2k_accepts {| k_len := c_flen c; k_w := c_w c; k_h := c_h c; k_c := c_spp c; k_p := c_ba c;
                     k_levels := 5; k_cbw := 64; k_cbh := 64; k_layers := 1; k_prog := 2;
-                    k_tw := 0; k_th := 0; k_quality := 80; k_lossless := true |}.
+                    k_tw := 0; k_th := 0; k_quality := 80; k_lossless := true; k_ncq := 0 |}.
 
 (* RLE: no frame-info / frame-count test before the loop; zero frames -> nil error and no
    frame. With >= 1 frame the outcome is encodeFrame's (nil FrameInfo -> error). *)
